@@ -276,3 +276,25 @@ Section Sorted.
     pose proof (Hab _ _ Hin) as Hlt. rewrite (proj2 (cmp_eq k0 k0) eq_refl) in Hlt. discriminate.
   Qed.
 End Sorted.
+
+Section Sorted2.
+  Context {K V : Type}.
+  Variable cmp : K -> K -> comparison.
+  Hypothesis cmp_eq : forall a b, cmp a b = Eq <-> a = b.
+  Hypothesis cmp_antisym : forall a b, cmp b a = CompOpp (cmp a b).
+  Hypothesis cmp_trans : forall a b c, cmp a b = Lt -> cmp b c = Lt -> cmp a c = Lt.
+
+  (* re-inserting a binding that is already there changes nothing *)
+  Lemma sm_insert_same k v (m : smap K V) :
+    sm_sorted cmp m -> sm_get cmp k m = Some v -> sm_insert cmp k v m = m.
+  Proof.
+    induction m as [|[k0 v0] r IH]; intros Hs Hg; [discriminate|].
+    apply (sorted_cons_iff cmp cmp_trans) in Hs as [Hab Hs]. cbn [sm_get sm_insert] in *.
+    destruct (cmp k k0) eqn:E.
+    - apply cmp_eq in E. subst k0. injection Hg as ->. reflexivity.
+    - (* k < k0: then k is below every key of the map, it cannot be found *)
+      exfalso. apply (sm_get_in cmp cmp_eq) in Hg. specialize (Hab _ _ Hg).
+      pose proof (cmp_trans _ _ _ E Hab) as H. rewrite (proj2 (cmp_eq k k) eq_refl) in H. discriminate.
+    - f_equal. apply IH; assumption.
+  Qed.
+End Sorted2.
